@@ -203,9 +203,83 @@ def shape_radix(item, ob):
         ob.check(name + f' consumed {pos}', pc, z3.And(*goals), replay=replay, cls='C15/radix/value', prefer=pref, sample='IntLit(sum of digit values) over the maximal digit prefix'); ob.witness('ok')
     ob.absorb_engine(E)
 
+def shape_lexnum(item, ob):
+    """the main Lexer::lex loop on one numeric literal: `<prefix>r<digits>`, `0x/0b/0o<digits>`, `<digits>`, `<digits>q`, with the digits symbolic:
+    exactly one token, of the right kind, holding the value the text spells"""
+    form, prefix, k = item
+    E = eng(); f = lex_fn(E, 'lex')
+    C = [z3.Int(f'c{i}') for i in range(k)]
+    def digval(c): return z3.If(z3.And(c >= 48, c <= 57), c - 48, z3.If(z3.And(c >= 97, c <= 122), c - 87, c - 55))
+    def alnum(c): return z3.Or(z3.And(c >= 48, c <= 57), z3.And(c >= 97, c <= 122), z3.And(c >= 65, c <= 90))
+    if form == 'radix': base = int(prefix); head = [ord(ch) for ch in prefix] + [ord('r')]
+    elif form == 'zero': base = {'x': 16, 'b': 2, 'o': 8}[prefix]; head = [ord('0'), ord(prefix)]
+    else: base = 10; head = []
+    tail = [ord('q')] if form == 'rat' else []
+    pre = [z3.And(alnum(c), digval(c) < base) for c in C]
+    text = [z3.IntVal(x) for x in head] + list(C) + [z3.IntVal(x) for x in tail]
+    def run():
+        E.assume(*pre)
+        c = Cell(lexer(text)); E.run_fn(f, [Ref(c)])
+        return c.v.fields[3]
+    def replay(model):
+        t = src_of([z3.simplify(x).as_long() if z3.is_int_value(z3.simplify(x)) else mval(model, x) for x in text])
+        val = 0
+        for x in C: val = val * base + mval(model, digval(x))
+        if form == 'rat': return {'program': t + ' == ' + str(val), 'expect': {'equals': 'OK 1'}}
+        return {'program': t, 'expect': {'equals': f'OK {val}'}}
+    acc = z3.IntVal(0)
+    for c in C: acc = acc * base + digval(c)
+    for pc, kd, res, lg in E.explore(run):
+        ob.paths += 1; name = f'Lexer::lex on {form} literal {prefix!r} + {k} digit(s)'
+        pref = [[z3.And(*[z3.And(c >= 48, c <= 49) for c in C])]] if C else []
+        if kd == 'panic': ob.panic(name + ' panic-free', pc, res, replay=replay, cls='C15/lex number/panic', prefer=pref); continue
+        if kd != 'ok': ob.missing(name, f'{kd}: {res}'); continue
+        toks = res.fields
+        if len(toks) != 1: ob.check(name + ' is one token', pc, z3.BoolVal(False), replay=replay, cls='C15/lex number/value', prefer=pref); continue
+        tok = toks[0].fields[0]
+        if form == 'rat':
+            v = tok.fields[0]; v = v.cell.v if isinstance(v, BoxV) else v
+            goal = z3.And(z3.BoolVal(tok.variant == 'RatLit'), (v.v if isinstance(v, Rat) else z3.ToReal(v)) == z3.ToReal(acc)) if tok.variant == 'RatLit' else z3.BoolVal(False)
+        else:
+            goal = z3.And(z3.BoolVal(tok.variant == 'IntLit'), tok.fields[0] == acc) if tok.variant == 'IntLit' else z3.BoolVal(False)
+        ob.check(name + ' = the number the text spells', pc, goal, replay=replay, cls='C15/lex number/value', prefer=pref, sample='one IntLit / RatLit token holding sum(digit * base^i)'); ob.witness(tok.variant)
+    ob.absorb_engine(E)
+
+def shape_parser_int(item, ob):
+    """parser units that turn an integer literal token into a machine value: try_consume_u8 (elements of B[...]) and try_consume_usize:
+    Ok(Some(value)) with exactly the literal's value and the cursor advanced iff it is in range; an out-of-range literal is a parse error; another token is Ok(None)"""
+    meth, tokkind = item
+    E = eng()
+    fs = [f for f in E.by_last.get(meth, []) if 'Parser' in (f.params[0][1] if f.params else '') and '{closure' not in f.name]
+    if len(fs) != 1: raise Missing(f'Parser::{meth} not found uniquely ({len(fs)})')
+    f = fs[0]; I = z3.Int('i')
+    lo, hi = (0, 255) if meth == 'try_consume_u8' else (0, 2**64 - 1)
+    def run():
+        tok = Adt('Token', 'IntLit', [I]) if tokkind == 'int' else Adt('Token', 'Comma', [])
+        c = Cell(Adt('Parser', None, [Seq([Adt('LocToken', None, [tok, loc(), loc()])]), z3.IntVal(0)]))
+        r = E.run_fn(f, [Ref(c), Opaque('str:"msg"')]); return r, c.v.fields[1]
+    def replay(model):
+        i = mval(model, I)
+        if tokkind != 'int' or meth != 'try_consume_u8' or i < 0: return None
+        return {'program': f'B[{i}]', 'expect': {'equals': f'OK B[{i}]'} if i <= 255 else {'prefix': 'PARSEERR'}}
+    for pc, kd, res, lg in E.explore(run):
+        ob.paths += 1; name = f'Parser::{meth} on {tokkind} token'
+        pref = [[z3.And(I >= 250, I <= 260)], [z3.And(I >= -(1 << 70), I <= (1 << 70))]]
+        if kd == 'panic': ob.panic(name + ' panic-free', pc, res, replay=replay, cls=f'C15/parser {meth}/panic', prefer=pref); continue
+        if kd != 'ok': ob.missing(name, f'{kd}: {res}'); continue
+        r, pos = res
+        if tokkind != 'int': goal = z3.And(z3.BoolVal(r.variant == 'Ok' and r.fields[0].variant == 'None'), pos == 0)
+        elif r.variant == 'Ok':
+            o = r.fields[0]
+            goal = z3.And(I >= lo, I <= hi, o.fields[0].fields[1] == I, pos == 1) if o.variant == 'Some' else z3.BoolVal(False)
+        else: goal = z3.And(z3.Or(I < lo, I > hi), pos == 0)
+        ob.check(name + ' returns the literal\'s value or a parse error', pc, goal, replay=replay, cls=f'C15/parser {meth}/value', prefer=pref,
+                 sample='Ok(Some(v)) iff lo <= literal <= hi and v == literal; otherwise a parse error'); ob.witness(r.variant)
+    ob.absorb_engine(E)
+
 def run_shape(item, ob):
     fam, payload = item
-    {'string': shape_string, 'radix': shape_radix}[fam](payload, ob)
+    {'string': shape_string, 'radix': shape_radix, 'lexnum': shape_lexnum, 'parser_int': shape_parser_int}[fam](payload, ob)
 
 def main(tier, seed, t0):
     global MIR
@@ -221,11 +295,20 @@ def main(tier, seed, t0):
     if tier != 'quick': items.append(('string', ('any', 3)))
     for base in (2, 8, 10, 16, 36, 64):
         for k in range(0, 4 if tier == 'quick' else 5): items.append(('radix', (base, k)))
+    for prefix in ('2', '3', '8', '10', '16', '35', '36'):
+        for k in (1, 2): items.append(('lexnum', ('radix', prefix, k)))
+    for prefix in ('x', 'b', 'o'):
+        for k in (1, 2): items.append(('lexnum', ('zero', prefix, k)))
+    for k in (1, 2, 3):
+        items.append(('lexnum', ('dec', '', k))); items.append(('lexnum', ('rat', '', k)))
+    for meth in ('try_consume_u8', 'try_consume_usize'):
+        for tk in ('int', 'other'): items.append(('parser_int', (meth, tk)))
     rnd = random.Random(seed); rnd.shuffle(items)
     merged, per = pmap(run_shape, items, tier)
     return finish(PROP, tier, seed, merged, t0, th=th,
-        kernels=['lex.rs: Lexer::{next, peek, emit, lex_simple_string_after_start, lex_base_and_emit, lex_base_64_and_emit}'],
+        kernels=['lex.rs: Lexer::{next, peek, emit, lex_simple_string_after_start, lex_base_and_emit, lex_base_64_and_emit}', 'lex.rs: Lexer::lex (numeric-literal branch of the main loop)',
+                 'core.rs: Parser::{try_consume_u8, try_consume_usize, peek_loc_token, error_here, advance}'],
         bounds={'string bodies': f'plain runs of 0..3 symbolic printable chars; each escape form with symbolic payload: \\\\c (any c), \\\\x + 0..3 chars, \\\\u with/without each bracket kind + 0..{umax} hex digits; 2 (quick) / 3 fully symbolic chars for panic-freedom',
                 'radix literals': 'bases 2, 8, 10, 16, 36 and base-64 with 0..3 (quick) / 0..4 symbolic chars'},
-        outside=['the main Lexer::lex dispatch loop over arbitrary text and the recursive-descent parser (size: not encodable within reach)', 'float literals (std parse::<f64>)', 'format-string bodies', 'literal Token -> Expr -> Obj evaluation'],
+        outside=['the Lexer::lex dispatch loop on text other than one numeric literal (identifiers, operators, comments) and the recursive-descent parser beyond the two integer-literal units', 'float literals (std parse::<f64>)', 'format-string bodies', 'literal Token -> Expr -> Obj evaluation'],
         assumptions=['Peekable<Chars> = cursor over the character sequence', 'char::to_digit / from_u32 per std documentation'])
